@@ -2,10 +2,12 @@ module verifharness
 
 go 1.22.1
 
-require github.com/glowlabs-org/gca-backend v0.0.0
+require (
+	github.com/ethereum/go-ethereum v1.14.3
+	github.com/glowlabs-org/gca-backend v0.0.0
+)
 
 require (
-	github.com/ethereum/go-ethereum v1.14.3 // indirect
 	github.com/glowlabs-org/errors v0.0.0-20240512103511-f6f59e80d2a3 // indirect
 	github.com/glowlabs-org/threadgroup v0.0.0-20240512114128-232ca7c42d0d // indirect
 	github.com/holiman/uint256 v1.2.4 // indirect
